@@ -2,7 +2,7 @@ import Regatta.Driver.Proto
 import Regatta.Model.Fsm
 import Regatta.Model.Snapshot
 import Regatta.Model.ReadPath
-import Regatta.Model.Api
+import Regatta.Model.ApiBridge
 /-
   fsm mode of the driver (DESIGN.md Appendix C): parses the operation lines written by the Go
   harness, runs `Regatta.Fsm`, prints answers in the harness's canonical form.
@@ -185,14 +185,8 @@ the acceptance model of C16 -/
 def rangeAccepted (r : RangeReq) : Bool :=
   (Api.rangeLimits { table := [1], klen := r.key.length, relen := (r.rangeEnd.getD []).length }).isNone
 
-def apiOp : ReqOp → Api.Op
-  | .range r => .range r.key.length (r.rangeEnd.getD []).length
-  | .put k v _ => .put k.length v.size
-  | .del k e _ _ => .del k.length (e.getD []).length
-  | .none => .none
-
 def txnAccepted (c : List Compare) (s f : List ReqOp) : Bool :=
-  Api.kvTxn [[1]] ⟨[1], c.map (fun x => ⟨x.key.length, (x.rangeEnd.getD []).length⟩), s.map apiOp, f.map apiOp⟩ == .ok
+  Api.kvTxn [[1]] (ApiBridge.apiTxn [1] c s f) == .ok
 
 def chunksStr (chunks : List RangeResp) : String :=
   s!"ok {chunks.length}" ++ String.join (chunks.map (fun c => " " ++ rrStr c))
